@@ -53,7 +53,7 @@ func classOf(owner interface{}, field string) string {
 	for st.Kind() == reflect.Ptr {
 		st = st.Elem()
 	}
-	cls := st.Name() + "." + field
+	cls := st.String() + "." + field
 	if st.Kind() == reflect.Struct {
 		if f, ok := st.FieldByName(field); ok && len(f.Index) > 1 {
 			d := st
@@ -63,7 +63,7 @@ func classOf(owner interface{}, field string) string {
 					d = d.Elem()
 				}
 			}
-			cls = d.Name() + "." + field
+			cls = d.String() + "." + field
 		}
 	}
 	clsCache.Store(key, cls)
@@ -121,7 +121,9 @@ func (l *Logger) Marker(kind, line string) {
 	}
 	gi.kind = kind
 	l.seq++
-	l.evs = append(l.evs, Ev{Seq: l.seq, G: g, Op: "cmd", Sess: gi.sess, Kind: kind, Line: line})
+	if l.maxEvs == 0 || len(l.evs) < l.maxEvs {
+		l.evs = append(l.evs, Ev{Seq: l.seq, G: g, Op: "cmd", Sess: gi.sess, Kind: kind, Line: line})
+	}
 	l.mu.Unlock()
 }
 
